@@ -4,11 +4,21 @@ Stage 1 (proof): Props/C14.v.
 Stage 2 (correspondence): VersionNum parse/display/next/previous of the real
   library (debug build, overflow checks on) against the Gallina model, evaluated in Coq.
 Stage 3 (direct search): model-free statement of the property on the same outputs.
+Stage 4 (multi-client correspondence + search): interleavings of the operations of 2 and 3
+  clients (= distinct staging roots on one storage root) driven through the real library
+  (one handle per client) and through the release CLI (`rocfl -r ROOT -s STAGING_k`); after
+  every step the result class and the abstracted state on disk are compared, inside Coq, with
+  Model/MultiClient.v (Corr/CheckMultiClient.v), and a model-free oracle is evaluated
+  (vplib/multiclient.py).
 """
 import json
+import os
+import shutil
 import subprocess
+import tempfile
 
 from vplib import common
+from vplib import multiclient as mc
 from vplib.common import coq_str
 
 
@@ -90,6 +100,177 @@ def direct_oracle(c, o):
     return None
 
 
+# --------------------------------------------------------------------------- multi-client half
+
+MC_IMPORTS = ["Base.Bytes", "Model.MultiClient", "Corr.CheckMultiClient"]
+WIDTHS = [0, 2, 3]
+
+
+def mc_scratch(ctx):
+    """scratch base for the interleavings: reachable as ctx.tmp/mc; kept on tmpfs when there is one
+    (ext4 here needs 2-3 ms per unlink/rmdir, a hundred times the cost of the operation under test)"""
+    link = os.path.join(ctx.tmp, "mc")
+    real = None
+    if os.path.isdir("/dev/shm") and os.access("/dev/shm", os.W_OK):
+        try:
+            real = tempfile.mkdtemp(prefix="verif-c14-", dir="/dev/shm")
+            os.symlink(real, link)
+        except OSError:
+            if real:
+                shutil.rmtree(real, ignore_errors=True)
+            real = None
+    if real is None:
+        os.makedirs(link, exist_ok=True)
+    return link, real
+
+
+def mc_jobs(ctx):
+    """(library jobs, CLI jobs): lists of (key, nclients, ops)"""
+    rng = ctx.rng
+    quick = ctx.quick()
+    sess, cli = [], []
+    for name, n, ops in mc.scenarios(thorough=not quick):
+        sess.append(("scenario/" + name, n, ops))
+        if name != "width-3-maximum":
+            cli.append(("cli-scenario/" + name, n, ops))
+    # every interleaving of two clients with <= 2 operations each, from five start states
+    for start in ("S2", "S5", "S0", "S1", "S4"):
+        every = 1 if (start in ("S2", "S5") or not quick) else 4
+        off = rng.randrange(every)
+        for k, (name, ops) in enumerate(mc.exhaustive(start, 2, WIDTHS)):
+            if k % every == off:
+                sess.append(("exh2/" + name, 2, ops))
+    # three operations each: sampled
+    for start, n in (("S2", 500 if quick else 12000), ("S4", 400 if quick else 8000), ("S0", 300 if quick else 8000),
+                     ("S5", 300 if quick else 6000)):
+        for k, (name, ops) in enumerate(mc.sampled(rng, start, 3, WIDTHS, n)):
+            sess.append(("smp3/%d/%s" % (k, name), 2, ops))
+    # longer random interleavings, two and three clients, one or two object ids
+    for k in range(400 if quick else 6000):
+        ncl = rng.choice([2, 3, 3])
+        ids = rng.choice([["o"], ["o"], ["o", "p"]])
+        sess.append(("rnd/%d" % k, ncl, mc.random_sequence(rng, ncl, rng.randint(6, 16), ids, [0, 1, 2, 3])))
+    for k in range(40 if quick else 600):
+        ncl = rng.choice([2, 3])
+        cli.append(("cli-rnd/%d" % k, ncl, mc.random_sequence(rng, ncl, rng.randint(6, 14), ["o"], [0, 2, 3])))
+    for k, (name, ops) in enumerate(mc.sampled(rng, "S2", 2, WIDTHS, 40 if quick else 600)):
+        cli.append(("cli-smp2/%d/%s" % (k, name), 2, ops))
+    return sess, cli
+
+
+def mc_judge(ctx, r, out, known_ids, stats):
+    """one executed interleaving + what Coq answered; records evidence, known hits, violations"""
+    steps = r["steps"]
+    chk = mc.parse_check(out)
+    group = r["key"].split("/", 1)[0]
+    stats["groups"][group] = stats["groups"].get(group, 0) + 1
+    rcs = [s["rc"] for s in steps]
+    for s in steps:
+        k = s["op"][0] + ":" + s["rc"]
+        stats["ops"][k] = stats["ops"].get(k, 0) + 1
+    clients_committing = {s["op"][1] for s in steps if s["op"][0] == "commit"}
+    refused_commit = any(s["op"][0] == "commit" and s["rc"] == "err" for s in steps)
+    nontrivial = len({s["op"][1] for s in steps}) >= 2 and any(s["op"][0] == "commit" and s["rc"] == "ok" for s in steps)
+    if len(clients_committing) >= 2 and refused_commit:
+        stats["raced"] += 1
+    sample = {"backend": r["kind"], "interleaving": [s["op"] for s in steps], "results": rcs,
+              "final_state": steps[-1]["view"] if steps else None, "model_agrees": out}
+    ctx.count((r["kind"], [s["op"] for s in steps], rcs), nontrivial=nontrivial, sample=sample)
+    detail = {"backend": "library handles (vh hist, debug build)" if r["kind"] == "sess" else "release CLI, one process per operation",
+              "clients": r["nclients"], "key": r["key"], "interleaving": [s["op"] for s in steps], "results": rcs}
+    if len(chk) != len(steps):
+        common.corr_break(ctx, "Corr.CheckMultiClient.check_run returned %d steps for %d" % (len(chk), len(steps)), detail)
+        return
+    known_from = next((i for i, c in enumerate(chk) if c[1]), None)
+    if known_from is not None:
+        stats["known_steps"] += 1
+    hit_known = False
+    for i, s in enumerate(steps):
+        if not s["problems"]:
+            continue
+        in_lineage = known_from is not None and i >= known_from and "recreated-lineage" in known_ids
+        in_overflow = chk[i][2] and "vnum-overflow" in known_ids
+        if in_lineage or in_overflow:
+            if not hit_known:
+                ctx.known_hit("recreated-lineage" if in_lineage else "vnum-overflow")
+                hit_known = True
+            continue
+        if stats["violations"] < 8:
+            ctx.violation("impl-violation", dict(detail, step=i, operation=s["op"], observed={"result": s["rc"], "detail": s["detail"],
+                                                                                                "state_after": s["view"]},
+                                                 expected=s["problems"], model_check=out))
+        stats["violations"] += 1
+        return
+    bad = [i for i, c in enumerate(chk) if c[0] != 0]
+    if bad:
+        i = bad[0]
+        if stats["corr"] < 4:
+            common.corr_break(ctx, "Corr.CheckMultiClient case (Model/MultiClient.v vs repo.rs/store/fs.rs): step %d code %d "
+                                   "(1 result class, 2 main repository, 4 staging)" % (i, chk[i][0]),
+                              dict(detail, step=i, operation=steps[i]["op"],
+                                   observed={"result": steps[i]["rc"], "state_after": steps[i]["view"]}, model_check=out))
+        stats["corr"] += 1
+    if known_from is not None and not any(s["problems"] for s in steps[known_from:]):
+        # the model says the known class was entered, the real commit showed nothing wrong: the
+        # classifier is wider than the defect
+        if stats["corr"] < 4:
+            common.corr_break(ctx, "KnownC14.c14_recreated_lineage holds at step %d but the oracle found nothing wrong" % known_from, detail)
+        stats["corr"] += 1
+
+
+def mc_stage(ctx, vh):
+    ok, log = common.coq_make(["theories/Corr/CheckMultiClient.vo"])
+    if not ok:
+        raise common.BuildError("Corr/CheckMultiClient.v does not build:\n" + log[-3000:])
+    # the name table of the driver and the one of the checker must be the same table
+    tab = common.coq_eval("c14nm", MC_IMPORTS, ["bytes_eqb (nm %d) %s" % (k, coq_str(s)) for k, s in enumerate(mc.NM)])
+    if tab != ["true"] * len(mc.NM):
+        raise common.BuildError("Corr.CheckMultiClient.nm differs from vplib.multiclient.NM: %r" % (tab,))
+    rocfl = common.build_rocfl_release()
+    base, real = mc_scratch(ctx)
+    try:
+        sess_jobs, cli_jobs = mc_jobs(ctx)
+        res = mc.run_all("sess", vh, os.path.join(base, "s"), sess_jobs)
+        res += mc.run_all("cli", rocfl, os.path.join(base, "c"), cli_jobs)
+    finally:
+        if real:
+            shutil.rmtree(real, ignore_errors=True)
+    outs = common.coq_eval("c14mc", MC_IMPORTS, [r["term"] for r in res], batch=200)
+    known_ids = {k["id"] for k in ctx.known}
+    stats = {"groups": {}, "ops": {}, "raced": 0, "known_steps": 0, "violations": 0, "corr": 0}
+    for r, o in zip(res, outs):
+        mc_judge(ctx, r, o, known_ids, stats)
+    ctx.coverage["multiclient"] = {
+        "interleavings": len(res), "steps": sum(len(r["steps"]) for r in res), "by_group": stats["groups"],
+        "operation_results": stats["ops"], "interleavings_with_a_refused_racing_commit": stats["raced"],
+        "interleavings_entering_known_class": stats["known_steps"],
+        "violating_interleavings": stats["violations"], "model_disagreements": stats["corr"],
+    }
+    return len(res)
+
+
+def replay(ctx, body):
+    """re-run the interleaving of a replay file of the multi-client stage (anything else: full run)"""
+    if "interleaving" not in body:
+        return run(ctx)
+    vh = common.build_harness()
+    common.coq_make(["theories/Corr/CheckMultiClient.vo"])
+    kind = "cli" if str(body.get("backend", "")).startswith("release") else "sess"
+    exe = common.build_rocfl_release() if kind == "cli" else vh
+    base, real = mc_scratch(ctx)
+    try:
+        res = mc.run_all(kind, exe, os.path.join(base, "r"), [("replay", int(body.get("clients", 3)), body["interleaving"])], workers=1)
+    finally:
+        if real:
+            shutil.rmtree(real, ignore_errors=True)
+    outs = common.coq_eval("c14mc", MC_IMPORTS, [r["term"] for r in res])
+    stats = {"groups": {}, "ops": {}, "raced": 0, "known_steps": 0, "violations": 0, "corr": 0}
+    mc_judge(ctx, res[0], outs[0], {k["id"] for k in ctx.known}, stats)
+    for i, s in enumerate(res[0]["steps"]):
+        common.log("step %d %r -> %s %s" % (i, s["op"], s["rc"], "; ".join(s["problems"])))
+    return ctx.finish(rule="replay of one interleaving")
+
+
 def run(ctx):
     proof = common.proof_stage(ctx)
     vh = common.build_harness()
@@ -134,8 +315,14 @@ def run(ctx):
         elif r != "true":
             # model and implementation disagree although the property holds on this input
             common.corr_break(ctx, "Corr.CheckVnum case (model VersionNum.v vs types.rs)", {"input": c, "observed": o})
-    ctx.coverage["traces_validated_against_impl"] = len(cases)
+    n_mc = mc_stage(ctx, vh)
+    ctx.coverage["traces_validated_against_impl"] = len(cases) + n_mc
     ctx.coverage["distribution"] = stats
-    ctx.assumptions.append("correspondence uses the debug build of the library (overflow checks on); the release-mode wrap is modelled (vnext false) but only the debug mode is compared")
+    ctx.assumptions.append("VersionNum correspondence uses the debug build of the library (overflow checks on); the release-mode wrap is modelled (vnext false) and compared only through the release CLI runs of the multi-client stage")
+    ctx.assumptions.append("multi-client model: every operation is atomic (interleavings of whole operations; the clients of the check run one after the other); an object directory is abstracted to (lineage, head, version states) - the lineage token is the model's and the driver's bookkeeping, the code has none")
     return common.finish_with_proof(ctx, proof,
-        rule="VersionNum cases: widths 0-12,20,u32::MAX x numbers around every 10^k and u32::MAX plus random; parse strings from a hostile pool plus random; distinct = distinct (input, outcome class)")
+        rule="VersionNum cases: widths 0-12,20,u32::MAX x numbers around every 10^k and u32::MAX plus random; parse strings from a hostile pool plus random; distinct = distinct (input, outcome class). "
+             "Multi-client: hand-written scenarios (purge + re-create under a staged copy with fewer/equal/more versions and other widths, 3-client races in every commit order, create/create race, width 1/2/3/11 maxima); "
+             "every interleaving of 2 clients x <= 2 operations each from {new, stage, commit, reset, purge} after 5 start states (quick: S2, S5 complete, the others every 4th), widths rotating over 0,2,3; "
+             "sampled interleavings with 3 operations each; random interleavings of 2-3 clients over 1-2 ids (6-16 steps); scenarios and samples again through the release CLI. "
+             "distinct = distinct (backend, operation sequence, result classes); non-trivial = at least two clients act and some commit succeeds")
